@@ -797,6 +797,12 @@ class Gen(object):
         rng = self.rng
         op = {"op": "save", "f": f, "via": rng.choice(SAVE_VIA), "values": self._values(), "dt": self._dt(),
               "label": rng.choice(LABELS)}
+        if rng.random() < 0.05:
+            # a long label (station, component, processing history): the header line then starts beyond the first 80, 256,
+            # 1 024, 4 096 ... characters of the file (c16r-2: a reader that looks for the header in a fixed-size head)
+            k = rng.choice([70, 79, 80, 120, 200, 244, 250, 255, 256, 257, 300, 511, 1000, 1023, 1024, 4095, 4096, 5000, 8191, 8192, 70000])
+            words = "record of station %d component EW processed with a long description " % rng.randint(1, 99)
+            op["label"] = (words * (k // len(words) + 1))[:k].rstrip() or "x"
         c = rng.random()
         if c < 0.2 and op["values"]["nd"] == "f8":
             op["as"] = rng.choice(["list", "tuple", "list", "reversed-view", "strided-view"])
